@@ -207,22 +207,37 @@ func lemmaRespAppendAbsent(a string) {
 // request's token type (so only type-1 / type-2 requests can succeed); an issuer writes no memory that
 // existed before the call (the type-1 and type-2 issuers' Evaluate are proved to behave so).
 //
+// IssKeyLast(i) / IssType(i): the last byte of the issuer's token key id and the issuer's token type (pure
+// functions of the issuer object).
+//
+//@ spec opaque
+func IssKeyLast(i any) uint8 { return 0 }
+
+//@ spec opaque
+func IssType(i any) uint16 { return 0 }
+
 //@ iface ($PKG.Issuer).TokenKeyID func(i Issuer) (id []byte)
-//@ ensures len(id) >= 1
+//@ ensures len(id) >= 1 && id[len(id)-1] == IssKeyLast(i)
 //@ assigns none
 //@ end
 
+// An issuer is only ever asked to evaluate a request of its own token type whose truncated key id is the
+// last byte of the issuer's key id (C05: issuer lookup by token type, then by key id).
+//
 //@ iface ($PKG.Issuer).Evaluate func(i Issuer, req tokens.TokenRequest) (resp []byte, err error)
+//@ requires tokens.ReqTrunc(req) == IssKeyLast(i) && tokens.ReqType(req) == IssType(i)
 //@ ensures err == nil ==> len(resp) == specRespLen(tokens.ReqType(req))
 //@ assigns none
 //@ end
 
 //@ iface ($PKG.Issuer).Type func(i Issuer) (t uint16)
+//@ ensures t == IssType(i)
 //@ assigns none
 //@ pure
 //@ end
 
-// specIssuersOK: no configured issuer is nil (NewBasicBatchedIssuer calls Type() on each, so it cannot store
+// specIssuersOK: no configured issuer is nil and every issuer is filed under its own token type
+// (NewBasicBatchedIssuer calls Type() on each and files it there, so it cannot store
 // a nil issuer; this is a precondition of EvaluateBatch here, not proved of the constructor, whose loop needs
 // a nested invariant over a map of slices that the solvers do not carry through append).
 //
@@ -230,6 +245,8 @@ func lemmaRespAppendAbsent(a string) {
 func specIssuersOK(i BasicBatchedIssuer) bool {
 	return Forall(0, 65536, func(t int) bool {
 		return Forall(0, len(i.issuers[uint16(t)]), func(k int) bool { return i.issuers[uint16(t)][k] != nil })
+	}) && Forall(0, 65536, func(t int) bool {
+		return Forall(0, len(i.issuers[uint16(t)]), func(k int) bool { return IssType(i.issuers[uint16(t)][k]) == uint16(t) })
 	})
 }
 
